@@ -56,7 +56,9 @@ class C11(Check):
     min_outcomes = 2
     rule = ("breadth-first exploration of every history of derive/execute operations up to the stated depth over "
             "a forest rooted at one untyped and one typed dataset (class callback attaching MetaData, method "
-            "callback attaching EMPTY MetaData, defaulted parameters so the type follower rewrites call sites); "
+            "callback attaching EMPTY MetaData, defaulted parameters so the type follower rewrites call sites; lambdas "
+            "as strings, as Python callables, as one user-held ast.Lambda / Module-wrapped AST handed to several "
+            "streams; executors that record, fail, or edit the tree they are handed in place); "
             "every operation is applicable to every live stream (branching, siblings); after every transition the "
             "annotated dump and item type of EVERY earlier stream must equal the values recorded at its creation. "
             "States are de-duplicated by a heap-graph key that includes node sharing")
@@ -71,7 +73,7 @@ class C11(Check):
     def spaces(self, tier):
         Q = tier == "quick"
         out = []
-        plan = [("quick", 3, 1)] if Q else [("quick", 4, 2), ("wide", 3, 1), ("narrow", 5, 2)]
+        plan = [("quick", 3, 1), ("mut", 3, 1)] if Q else [("quick", 4, 2), ("wide", 3, 1), ("narrow", 5, 2), ("mut", 4, 2)]
         for mname, depth, plen in plan:
             m = self._model(mname)
             out.append(Space(f"histories<={depth}:{mname}", {"depth": depth, "menu": m.derive + m.execs, "roots": 2},
@@ -83,13 +85,18 @@ class C11(Check):
         """every depth-2 subtree, explored as the first (and second) thing a pristine process does: state that the
         library keeps per process (parse caches, interned nodes) is then seen in its initial condition"""
         m = self._model("quick")
-        return [("pristine", "run_prefix", ("quick", 2, p)) for p in _prefixes(m, 1)]
+        m2 = self._model("mut")
+        return [("pristine", "run_prefix", ("quick", 2, p)) for p in _prefixes(m, 1)] + \
+               [("pristine", "run_prefix", ("mut", 2, p)) for p in _prefixes(m2, 1) if p[0][0] in ("SelectMod", "ValueMut")]
 
     def _model(self, name):
         if name == "quick":
             return Model(DERIVE, EXEC)
         if name == "narrow":
             return Model(["Select2", "SelectSame", "MD0", "QMD", "SelectAst"], ["Value"])
+        if name == "mut":
+            # a lambda handed over as ONE Module-wrapped AST; an executor that edits the tree it receives in place
+            return Model(["Select", "SelectSame", "SelectMod", "SelectAstSame", "MD0", "QMD"], ["Value", "ValueMut"])
         if name == "wide":
             return Model(DERIVE_T, EXEC_T)
         raise ValueError(name)
